@@ -111,4 +111,26 @@ PROPS = {
         'trusted_base': ['verif hook steppers (construct the real Discipline without starting main)'],
         'assumptions': ['handlers release only what they hold (API contract)'],
     },
+    'C03': {
+        'lean_targets': ['Cqos.Props.C03'],
+        'theorems': ['Cqos.C03.jstep_inv', 'Cqos.C03.jrun_inv', 'Cqos.C03.c03_concat', 'Cqos.C03.c03_prefix',
+                     'Cqos.C03.c03_nonempty', 'Cqos.C03.c03_join_le', 'Cqos.C03.c03_unite_big'],
+        'runs': [{'cmd': 'jstepper', 'args': ['-family', 'mixed']}],
+        'monitor_prefix': ['C03'],
+        'level': 'proof',
+        'level_text': ('Lean theorems by induction over ARBITRARY action lists of the join/unite machine (items or slices of '
+                       'any lengths, ticker firings at any reading, releases, close, v1 Stop): the emitted slices always '
+                       'concatenate to a prefix of the accepted input and to exactly the input once the discipline has '
+                       'terminated after close; no emitted slice is empty; join slices have at most JoinSize elements; a '
+                       'unite slice longer than JoinSize is one whole oversize input slice. The machine is tied to the real '
+                       'v2 join, v2 unite and v1 join by the white-box stepper (real process/pass/isTimeouted called one at a '
+                       'time; buffer, emitted slices with their memory identity class and control state compared after each op)'),
+        'level_note': ('trusted: the stepper correspondence; the select loops (loop/loopUntimeouted, deferred pass) are covered '
+                       'by the black-box runs and the regenerated skeleton facts, not by the stepper'),
+        'rule': ('scripts of item/tick/close/release/stop over {join v1, join v2, unite v2} x copy/no-copy x timed/untimed, '
+                 'slice lengths 0, 1, <JoinSize, =JoinSize, >JoinSize; ticks at half and twice the timeout; every op is one '
+                 'compared case'),
+        'trusted_base': ['verif hook steppers for join/unite (construct the real Discipline without starting main)'],
+        'assumptions': [],
+    },
 }
